@@ -62,7 +62,7 @@ func (prog *Program) buildSMT(o *Obligation, axioms []*Term, wantModel bool) str
 		b.WriteString("(assert " + t.String() + ")\n")
 	}
 	if o.Cover {
-		b.WriteString("; cover: expected sat\n")
+		b.WriteString("; cover (vacuity check): the assumptions must not be refutable; any answer but unsat passes\n")
 	} else {
 		b.WriteString("(assert (not " + o.Goal.String() + "))\n")
 	}
@@ -142,6 +142,26 @@ func (prog *Program) discharge(obls []*Obligation, axioms []*Term, opt solveOpts
 
 func solveOne(o *Obligation, file string, opt solveOpts) {
 	ctx := context.Background()
+	if o.Cover {
+		// vacuity check: run the two z3 versions briefly; "unsat" means the assumptions are contradictory
+		total := 0.0
+		var outs []string
+		for _, sc := range solvers[:2] {
+			st, out, secs := runSolver(ctx, sc, file, 3*time.Second)
+			total += secs
+			outs = append(outs, sc.Name+": "+firstLine(out))
+			if st == "unsat" {
+				o.Status, o.Solver, o.Seconds, o.Output = "unsat", sc.Name, total, strings.Join(outs, "; ")
+				return
+			}
+			if st == "sat" {
+				o.Status, o.Solver, o.Seconds, o.Output = "sat", sc.Name, total, strings.Join(outs, "; ")
+				return
+			}
+		}
+		o.Status, o.Solver, o.Seconds, o.Output = "not-refuted", "", total, strings.Join(outs, "; ")
+		return
+	}
 	want := "unsat"
 	if o.Cover {
 		want = "sat"
